@@ -421,6 +421,11 @@ def gen_programs(tier, seed):
     for tr in itertools.product(alpha3, repeat=3):
         progs.append({"forced": [], "stmts": [["p", s] for s in tr]})
     n3 = len(progs) - n_corpus - n2
+    # exhaustive: all pairs over the same alphabet in a second phase q, behind one statement of phase p
+    for pr in itertools.product(alpha3, repeat=2):
+        # (the leading statement is a subscripted assignment: it never counts as progress)
+        progs.append({"forced": [], "stmts": [["p", mk("c", N("1"), (), True)]] + [["q", s] for s in pr]})
+    n3q = len(progs) - n_corpus - n2 - n3
     # random structured: 2-5 statements, two phases, forced kinds
     big = alphabet(EXPRS_CORE + EXPRS_MORE, ["a", "b", "<state>y", "c"],
                    [((), False), ((), False), (("i",), False), (("i",), True), (("i", "j"), False)])
@@ -432,6 +437,7 @@ def gen_programs(tier, seed):
         forced = rng.sample(FORCED_POOL, rng.choice([0, 0, 1, 1, 2, 3]))
         progs.append({"forced": forced, "stmts": stmts})
     dist = {"corpus": n_corpus, "exhaustive_2_statements": n2, "exhaustive_3_statements": n3,
+            "exhaustive_second_phase_pairs": n3q,
             "random": nrand,
             "exhaustive_scope": "all ordered pairs over %d statements (2 assignees x %d expressions x "
                                 "{plain, loop i, subscripted+loop i}); all triples over %d statements"
@@ -652,6 +658,20 @@ def unify_term_to_coq(t):
     return "(CU3 %s %s %s %s %s)" % (kind_to_coq(t[1]), kind_to_coq(t[2]), kind_to_coq(t[3]), l, r)
 
 
+def shape_switches():
+    """The defect-shape switches the translator reads off the working tree (for the evidence file)."""
+    try:
+        from harness.tr import c14 as tr
+        tree = tr._parse(common.REPO, "dagrt/data.py")
+        ut, arr = tr.unify_flags(tree)
+        ins, raises, _ = tr.set_flags(tree)
+        return {"unify_usertype_accepts_int": ut, "unify_array_accepts_int": arr,
+                "set_insert_marks_changed": ins, "set_reraises": raises,
+                "loop_variables_prepass": tr.finder_facts(tree)}
+    except Exception as ex:  # noqa: BLE001
+        return {"error": "%s: %s" % (type(ex).__name__, ex)}
+
+
 def main(tier):
     rep = common.Reporter(PID, tier)
     seed = common.seed()
@@ -835,7 +855,7 @@ def main(tier):
         samples=[{"program": jobs[i][0], "orders": len(jobs[i][1]),
                   "outcome_first_order": (res[seeds[0]][i][0] if not werrors else None)}
                  for i in (0, len(jobs) // 2, len(jobs) - 1)],
-        exhaustive=False, timing=timing,
+        exhaustive=False, timing=timing, repo_tree=common.REPO, shape_switches=shape_switches(),
     )
     rep.assumptions = [
         "expressions are constants, variables, sums, products, quotients and comparisons; function calls, "
